@@ -245,7 +245,24 @@ def rule_19_4(rep, fx):
         accepting = set()
         for s_, t_, cond, lab in st_edges:
             labs = {lab} if isinstance(lab, str) else (allv - set(lab[1]) if isinstance(lab, tuple) and lab[0] == 'not' else set())
-            if any(P.can_reach((t_, 0), o, avoid_edges=infeas) or P.norm((t_, 0)) == P.norm(o) for o in oks):
+            # `matches!(state, V)` lowers to: arm blocks set a bool, the join switches on it. Follow that one constant.
+            extra = []
+            consts = {}
+            for st in b.blocks[t_]['st']:
+                if st['s'] == 'assign' and not st['lhs'].get('p') and st['rv']['r'] == 'use' and st['rv']['x'].get('o') == 'const' and st['rv']['x']['k'].get('c') == 'int':
+                    consts[st['lhs']['l']] = int(st['rv']['x']['k']['v'])
+            if consts:
+                for sb in b.live_blocks():
+                    tt = b.blocks[sb]['term']
+                    if tt['t'] == 'switch' and tt['x'].get('o') in ('copy', 'move') and not tt['x']['pl'].get('p') and tt['x']['pl']['l'] in consts:
+                        v = consts[tt['x']['pl']['l']]
+                        arm_vals = [a[0] for a in tt['arms']]
+                        for a in tt['arms']:
+                            if a[0] != v:
+                                extra.append((sb, a[1]))
+                        if v in arm_vals:
+                            extra.append((sb, tt['otherwise']))
+            if any(P.can_reach((t_, 0), o, avoid_edges=list(infeas) + extra) or P.norm((t_, 0)) == P.norm(o) for o in oks):
                 accepting |= labs
         rep.check(accepting == expected, 'R19.4', '%s/accepting-states' % name, 'Ok reachable exactly from %s' % sorted(expected),
                   '%s can succeed from handshake state(s) %s; the message it handles is expected only in %s: a replayed or out-of-order message is accepted, overwrites the pending '
